@@ -666,3 +666,46 @@ Fixpoint nonincreasing (l : list N) : bool :=
 Definition diff_stdout_agrees (base pair : list node) (out : list dline) : bool :=
   dlines_eqb (sort_dlines (diff_stdout base pair)) (sort_dlines out)
   && nonincreasing (map (fun l => absdiff_of base pair (fst l)) out).
+
+(* ------------------------------------------------------------------ --avg-total / --avg-self *)
+(* command_report: avg_mode; convert_sort_keys (default key per mode, short keys avg/min/max renamed);
+   setup_default_field / setup_avg_total_field / setup_avg_self_field (the stdv column is not modelled) *)
+Inductive avg_mode := AVG_NONE | AVG_TOTAL | AVG_SELF.
+Inductive skey := SK (k : key) | S_avg | S_min | S_max.     (* a token of -s *)
+Definition convert_key (m : avg_mode) (s : skey) : option key :=
+  match s, m with
+  | SK k, _ => Some k
+  | _, AVG_NONE => None                          (* "avg" is not a sort key without --avg-* : invalid sort key *)
+  | S_avg, AVG_TOTAL => Some K_total_avg | S_avg, AVG_SELF => Some K_self_avg
+  | S_min, AVG_TOTAL => Some K_total_min | S_min, AVG_SELF => Some K_self_min
+  | S_max, AVG_TOTAL => Some K_total_max | S_max, AVG_SELF => Some K_self_max
+  end.
+Definition default_keys (m : avg_mode) : list key :=
+  match m with AVG_NONE => [K_total] | AVG_TOTAL => [K_total_avg] | AVG_SELF => [K_self_avg] end.
+Definition default_fields (m : avg_mode) : list fld :=
+  match m with
+  | AVG_NONE => [F_total; F_self; F_call]
+  | AVG_TOTAL => [F_total_avg; F_total_min; F_total_max]
+  | AVG_SELF => [F_self_avg; F_self_min; F_self_max]
+  end.
+Fixpoint convert_keys (m : avg_mode) (l : list skey) : option (list key) :=
+  match l with
+  | [] => Some []
+  | s :: t => match convert_key m s, convert_keys m t with Some k, Some r => Some (k :: r) | _, _ => None end
+  end.
+(* the options of one `uftrace report` run: --avg-* mode, -s tokens (None: not given), -f fields (None: not given;
+   with -f the --avg-* option is ignored altogether) *)
+Definition report_stdout (m : avg_mode) (s : option (list skey)) (f : option (list fld)) (tbl : list node)
+  : option (list line) :=
+  let m := match f with Some _ => AVG_NONE | None => m end in
+  let ks := match s with None => Some (default_keys m) | Some l => convert_keys m l end in
+  let fs := match f with None => default_fields m | Some l => l end in
+  match ks with
+  | Some ks => Some (stdout_model ks fs tbl)
+  | None => None
+  end.
+Definition report_keys (m : avg_mode) (s : option (list skey)) (f : option (list fld)) : list key :=
+  let m := match f with Some _ => AVG_NONE | None => m end in
+  match (match s with None => Some (default_keys m) | Some l => convert_keys m l end) with Some ks => ks | None => [] end.
+Definition report_fields (m : avg_mode) (f : option (list fld)) : list fld :=
+  match f with None => default_fields m | Some l => l end.
